@@ -106,3 +106,13 @@ Proof.
   - inversion E; subst. rewrite app_length; lia.
   - rewrite app_length. specialize (IHl _ _ E). lia.
 Qed.
+
+Lemma upd_upd_same : forall (A : Type) (l : list A) i x y, upd (upd l i x) i y = upd l i y.
+Proof. induction l; destruct i; simpl; intros; auto. now rewrite IHl. Qed.
+
+Lemma upd_same : forall (A : Type) (l : list A) i x, nth_error l i = Some x -> upd l i x = l.
+Proof.
+  induction l; destruct i; simpl; intros; try discriminate; auto.
+  - now inversion H.
+  - now rewrite IHl.
+Qed.
